@@ -79,10 +79,31 @@ mode_typelib (int argc, char **argv)
   int has_index = 0;
   guint s;
 
-  if (argc != 6)
+  int lazy = argc >= 7 && strchr (argv[6], 'l') != NULL;      /* load with G_IREPOSITORY_LOAD_FLAG_LAZY */
+  int early = argc >= 7 && strchr (argv[6], 'e') != NULL;     /* look every GType probe up once before the namespace is loaded */
+  GString *early_out = g_string_new ("");
+
+  if (argc != 6 && argc != 7)
     return 2;
   g_irepository_prepend_search_path (argv[2]);
-  tl = g_irepository_require_private (repo, argv[2], argv[3], argv[4], 0, &error);
+  if (early)
+    {
+      probes = read_lines (argv[5], &n);
+      for (i = 0; i < n; i++)
+        if (probes[i][0] == 'G' && probes[i][1] == '\t')
+          {
+            const char *str = probes[i] + 2;
+            GType t = g_type_from_name (str);
+            GIBaseInfo *info;
+            if (t == 0)
+              t = g_pointer_type_register_static (str);
+            info = t ? g_irepository_find_by_gtype (repo, t) : NULL;
+            g_string_append_printf (early_out, "X\t%s\t%s\n", str, info_name (info));
+            if (info)
+              g_base_info_unref (info);
+          }
+    }
+  tl = g_irepository_require_private (repo, argv[2], argv[3], argv[4], lazy ? G_IREPOSITORY_LOAD_FLAG_LAZY : 0, &error);
   if (!tl)
     {
       fprintf (stderr, "require failed: %s\n", error ? error->message : "?");
@@ -97,6 +118,7 @@ mode_typelib (int argc, char **argv)
           has_index = 1;
     }
   printf ("H\t%u\t%d\n", (unsigned) h->n_local_entries, has_index);
+  fputs (early_out->str, stdout);
   probes = read_lines (argv[5], &n);
   for (i = 0; i < n; i++)
     {
